@@ -27,6 +27,7 @@ CATALOGUE = {
     "R15": "a function-local `const X: T = E;` becomes `let X: T = E;`",
     "R16": "a local variable named like a Verus built-in type (`int`, `nat`) is renamed",
     "R17": "the tail expression E of a function becomes `let vx_ret = E; vx_ret`",
+    "D4": "statement slicing: a floating-point / BigInt / unverifiable tail or binding is replaced by a call of an uncontracted (or explicitly assumed-contract) external function of the same free variables",
 }
 
 
